@@ -78,10 +78,13 @@ impl impl_details::CacheImplDetails for MemoryStore {
         if record.header.timestamp + (record.header.time_to_live as u64) > current_time {
             return false;
         }
-        match self.remove(key) {
-            Some(_) => true,
-            None => true,
-        }
+        // collect the expired record only if it is still the one that was read:
+        // a store that completed in the meantime must not be undone
+        self.memory.remove_if(key, |_key, stored| {
+            stored.header.cas == record.header.cas
+                && stored.header.timestamp == record.header.timestamp
+        });
+        true
     }
 }
 
